@@ -9,6 +9,7 @@ import (
 	"encoding/json"
 	"fmt"
 	"math/rand"
+	"os"
 	"sort"
 	"strings"
 
@@ -372,14 +373,21 @@ func runC17(cfg runCfg) error {
 		// the members of abstract types and the interfaces of objects, described in place: they must read as their own entries
 		okNested, nestedDetail := true, ""
 		nprobe := 0
-		for _, tn := range inView {
-			t := std[tn]
-			pts := ojGet(t, "possibleTypes")
-			ifs := ojGet(t, "interfaces")
-			if (pts == nil || pts.Kind != "arr" || len(pts.Arr) == 0) && (ifs == nil || ifs.Kind != "arr" || len(ifs.Arr) == 0) {
-				continue
+		// abstract types first (their members are described in place), then objects with interfaces
+		var nestedProbe []string
+		for pass := 0; pass < 2; pass++ {
+			for _, tn := range inView {
+				pts := ojGet(std[tn], "possibleTypes")
+				abstract := pts != nil && pts.Kind == "arr" && len(pts.Arr) > 0
+				ifs := ojGet(std[tn], "interfaces")
+				hasIfs := ifs != nil && ifs.Kind == "arr" && len(ifs.Arr) > 0
+				if (pass == 0 && abstract) || (pass == 1 && !abstract && hasIfs) {
+					nestedProbe = append(nestedProbe, tn)
+				}
 			}
-			if nprobe++; nprobe > 3 {
+		}
+		for _, tn := range nestedProbe {
+			if nprobe++; nprobe > 6 {
 				break
 			}
 			q := `{ __type(name: ` + jsonString(tn) + `) { possibleTypes { name fields(includeDeprecated: true) { name } } interfaces { name fields(includeDeprecated: true) { name } } } }`
@@ -415,6 +423,9 @@ func runC17(cfg runCfg) error {
 					}
 				}
 			}
+		}
+		if os.Getenv("VH_DEBUG") != "" {
+			fmt.Fprintln(os.Stderr, name, "perms", perms != nil, "inView", len(inView), "nestedProbe", nestedProbe, "ok", okNested)
 		}
 		add("prop.c17.nested_types_consistent", okNested, nestedDetail)
 		add("prop.c17.type_by_name_consistent", okType, detail)
